@@ -132,6 +132,7 @@ class TmgrRig(object):
         self.forwarded = {}        # uid -> task dict as pushed downstream (last)
         self.submitted = {}        # uid -> task dict as submitted
         self.nraised   = 0
+        self.grole     = {p: 'none' for p in self.pilots}   # role as commanded
 
         self.c = self._make()
 
@@ -212,7 +213,7 @@ class TmgrRig(object):
 
     def proj(self):
         c = self.c
-        role, pst, used, tasks, done, hwm, early = {}, {}, {}, {}, {}, {}, {}
+        role, pst, used, tasks, done, hwm, early, init = {}, {}, {}, {}, {}, {}, {}, {}
         for p in self.pilots:
             e = c._pilots.get(p) or {}
             role[p] = e.get('role')  or 'none'
@@ -222,17 +223,19 @@ class TmgrRig(object):
             tasks[p] = list(info.get('tasks', []))
             done[p]  = list(info.get('done', []))
             hwm[p]   = int(info.get('hwm', -1))
+            init[p]  = 'done' in info
             early[p] = [t['uid'] for t in c._early.get(p, [])]
         wp = c._wait_pool
         wait = list(wp.keys()) if isinstance(wp, dict) else [t['uid'] for t in wp]
         return {'role': role, 'pst': pst, 'used': used, 'tasks': tasks, 'done': done,
-                'hwm': hwm, 'early': early, 'wait': wait, 'pids': list(c._pids),
+                'hwm': hwm, 'init': init, 'early': early, 'wait': wait, 'pids': list(c._pids),
                 'idx': int(c._idx)}
 
     def _call(self, ev, fn, **kw):
         self.cur_fwd   = []
         self.published = []
         raised = 'none'
+        echo   = 'none'
         with self._patches():
             try:
                 fn()
@@ -250,9 +253,8 @@ class TmgrRig(object):
                     try:
                         self.c._base_state_cb(rpc.STATE_PUBSUB, copy.deepcopy(msg))
                     except Exception as e:
-                        if raised == 'none':
-                            raised = 'echo:' + type(e).__name__
-        e = {'ev': ev, 'raised': raised, 'fwd': self.cur_fwd, 'failed': failed,
+                        echo = type(e).__name__
+        e = {'ev': ev, 'raised': raised, 'echo': echo, 'fwd': self.cur_fwd, 'failed': failed,
              'batch': [], 'add': [], 'pids': [], 'p': 'none', 's': 'none'}
         e.update(kw)
         e['st'] = self.proj()
@@ -272,11 +274,15 @@ class TmgrRig(object):
         pairs = sorted([list(x) for x in pairs], key=lambda x: self.pilots.index(x[0]))
         docs  = [self.pilot_doc(p, s) for p, s in pairs]
         msg   = {'cmd': 'add_pilots', 'arg': {'pilots': docs, 'tmgr': OWNER}}
+        for p, _ in pairs:
+            self.grole[p] = 'added'
         return self._call('AddPilots', lambda: self.c.control_cb(rpc.CONTROL_PUBSUB, msg), add=pairs)
 
     def remove(self, pids):
         pids = [p for p in self.pilots if p in set(pids)]
         msg  = {'cmd': 'remove_pilots', 'arg': {'pids': list(pids), 'tmgr': OWNER}}
+        for p in pids:
+            self.grole[p] = 'removed'
         return self._call('RemovePilots', lambda: self.c.control_cb(rpc.CONTROL_PUBSUB, msg), pids=pids)
 
     def pstate(self, pid, state):
@@ -324,7 +330,9 @@ class TmgrRig(object):
     # --------------------------------------------------------------------------
     # seeded random environment (respects what the task manager guarantees: a pilot
     # is not added twice, only added pilots are removed, one final notification
-    # per forwarded task)
+    # per forwarded task).  The pilot document of an add message carries ANY state:
+    # control and state messages travel on different channels, so the document may
+    # be older or newer than what the notifications said, or contradict it.
     def run_random(self, seed, nops=14, max_batch=3):
         rng  = random.Random(seed)
         ops  = []
@@ -333,8 +341,8 @@ class TmgrRig(object):
             st    = self.proj()
             new   = [t for t in self.tasks if t not in self.submitted]
             live  = [t for t in self.tasks if t in self.forwarded and t not in fin]
-            nadd  = [p for p in self.pilots if st['role'][p] != 'added']
-            added = [p for p in self.pilots if st['role'][p] == 'added']
+            nadd  = [p for p in self.pilots if self.grole[p] != 'added']
+            added = [p for p in self.pilots if self.grole[p] == 'added']
             acts  = []
             if new  : acts += ['submit'] * 3
             if nadd : acts += ['add'] * 3
@@ -367,14 +375,7 @@ class TmgrRig(object):
         return ops, self.trace()
 
     def _add_state(self, rng, cur):
-        '''state carried by the pilot document of an add message: never one which
-           contradicts a final state the scheduler already knows (the pilot manager
-           would have refused that transition itself)'''
-        while True:
-            s = rng.choice(PSTATES + ['PMGR_ACTIVE'] * 5)
-            if cur in ('DONE',) and s in rps.FINAL and s != cur:
-                continue
-            return s
+        return rng.choice(PSTATES + ['PMGR_ACTIVE'] * 5)
 
     # --------------------------------------------------------------------------
     def trace(self):
